@@ -51,6 +51,7 @@ class Check:
         self.functions_analysed = set()
         self.extra = {}
         self.quiet = quiet
+        self.anchor_error = None
 
     # ---------------------------------------------------------------- recording
     def rule(self, rid: str, text: str, floor: int = 1):
@@ -76,6 +77,15 @@ class Check:
             self.bad(rule, key, msg, facts, where)
         return cond
 
+    def guarded(self, fn, *args, **kw):
+        """Run one rule; a lost anchor in it must not hide the other rules' findings."""
+        try:
+            return fn(*args, **kw)
+        except AnalysisError as e:
+            if not self.anchor_error:
+                self.anchor_error = str(e)
+            return None
+
     def assume(self, text):
         if text not in self.assumptions:
             self.assumptions.append(text)
@@ -86,8 +96,10 @@ class Check:
         counts = {}
         for rule, key, ok, facts, vac in self.instances:
             counts[rule] = counts.get(rule, 0) + 1
-        floor_errors = []
+        floor_errors = [self.anchor_error] if self.anchor_error else []
         for rid, floor in self.floors.items():
+            if self.anchor_error:
+                break
             if counts.get(rid, 0) < floor and only_key is None:
                 floor_errors.append(
                     f"rule {rid} matched {counts.get(rid, 0)} instance(s), fewer than the {floor} "
